@@ -906,8 +906,13 @@ class C04(Prop):
         if rng.random() < 0.8:
             ops += [rng.choice(["q0", "q1", "q2"]) for _ in range(rng.randint(1, 3))]
         q = [bytes(l) for l in m.qname]
-        kind = rng.choice(["same", "same", "same", "other"])
-        if kind == "same" and q:
+        kind = rng.choice(["same", "same", "case", "case", "other"])
+        if kind == "case" and q and any(c in b"abcdefghijklmnopqrstuvwxyzABCDEFGHIJKLMNOPQRSTUVWXYZ" for l in q for c in l):
+            # only the case of letters changes: equal under every case-insensitive comparison, different bytes
+            q = [bytes((c ^ 0x20) if (65 <= (c & 0xDF) <= 90 and rng.random() < 0.6) else c for c in l) for l in q]
+            if q == [bytes(l) for l in m.qname]:
+                q = [bytes((c ^ 0x20) if 65 <= (c & 0xDF) <= 90 else c for c in l) for l in q]
+        elif kind in ("same", "case") and q:
             j = rng.randrange(len(q))
             l = bytearray(q[j])
             k = rng.randrange(len(l))
@@ -1605,6 +1610,11 @@ class HistProp(Prop):
                 if exp_e is not None and got_e != exp_e:
                     fails.append(("edns", "%s: the object reports EDNS (count, ext rcode, version, flags, payload) = %s, the message's OPT record says %s" % (
                         what, "/".join(map(str, got_e)), "/".join(exp_e))))
+                elif fp.startswith("fp[q="):
+                    # where the object says the EDNS data are (copy_raw_edns_section and the option iterator start there)
+                    ff = dict(x.split("=") for x in fp[3:-1].split(" "))
+                    if vv.get("ed") != ff.get("ed"):
+                        fails.append(("edns", "%s: the object places the EDNS data at %s, in its bytes they are at %s" % (what, vv.get("ed"), ff.get("ed"))))
             if "size" in self.clauses and st.kind in ("insert", "insert-too-large") and not is_err and len(b1) // 2 > 8192:
                 fails.append(("size-limit", "%s produced a packet of %d bytes (> 8192)" % (what, len(b1) // 2)))
             if "view" in self.clauses or ("err" in self.clauses and is_err):
@@ -1884,7 +1894,9 @@ class C09(HistProp):
                 "sections and well-formed pointer-free non-OPT records): a successful insert_rr leaves the pointer-free encoding of the same "
                 "question and records with the new record appended at the end of the chosen section and only that count incremented; those "
                 "bytes are accepted, read declaratively as exactly that, and the object's view equals their fresh parse in every field; "
-                "records of accepted packets are such records (C09_accepted_records_insertable). Further lemmas: C09_insert_appends (bytes after a successful insert = bytes before with the record spliced at the "
+                "records of accepted packets are such records (C09_accepted_records_insertable). The TTL setter from any state satisfying the "
+                "C08 invariant, cursor on a non-OPT record: a successful set_rr_ttl keeps the invariant and the reading is the old one with "
+                "exactly that TTL replaced, without any hypothesis on names (C09_set_ttl_on_decompressed). Further lemmas: C09_insert_appends (bytes after a successful insert = bytes before with the record spliced at the "
                 "end of the section, one count incremented), C09_set_ttl_frame (only 4 bytes change), C09_set_ttl_effect (on a section that reads "
                 "declaratively as records l, after set_rr_ttl t on the k-th cursor the section walk returns the views of l with the k-th TTL "
                 "replaced by t and nothing else changed, PROVIDED no owner name of the section is read through the 4 bytes written; "
@@ -2458,6 +2470,28 @@ class C15(HistProp):
                     ops += [fop if fop is not None else st.op, "v", "fp", "ca", "b"]
             ops += ["F,b", "F,g"]
             cases.append(Case("f%d" % i, "\t".join(ops), {"family": "hook-script", "steps": [], "nsteps": len(steps)}))
+        # set_name through the table: text name + optional default zone (absolute names ignore the zone; relative ones get it appended),
+        # short and long (the conversion's 253-byte limit applies to what is actually encoded)
+        zone_l = [b"example", b"com"]
+        zone = G.wire_name(zone_l)
+        def long_name(n, trailing):
+            labels = []
+            while n > 0:
+                k = min(50, n)
+                if n - k == 1:
+                    k -= 1
+                labels.append(bytes(rng.choice(b"abcdefghij") for _ in range(k)))
+                n -= k + 1
+            return T.dotted(labels, trailing)
+        texts = [T.dotted(T.rand_hostname(rng), tr) for tr in (False, True) for _ in range(6 if tier == "quick" else 200)]
+        texts += [long_name(n, tr) for n in (200, 230, 238, 239, 240, 241, 244, 250, 251, 252, 253) for tr in (False, True)]
+        for j, txt in enumerate(texts):
+            for z in (None, zone):
+                labels = T.expected_labels(txt, zone_l if z else None)
+                ok = T.ldh_name_ok(txt) and G.wire_len(labels) <= 253
+                ops = ["P," + hx(BASE_RESPONSE), "v", "fp", "ca", "b", "F,W,an,n.N%s:%s.n/*n" % (hx(txt), hx(z) if z else "-"), "v", "fp", "ca", "b"]
+                cases.append(Case("f%d" % len(cases), "\t".join(ops),
+                                  {"family": "set-name", "steps": [], "nsteps": 1, "setname": [txt.hex(), bool(z), ok, hx(name_text(labels)).lower() if ok else None]}))
         # copy-out of packets around the capacity of the buffer the shipped header gives hooks (8192 bytes), under several stated capacities
         for size in (8190, 8191, 8192, 8193, 9000):
             b = exact_packet(rng, size)
@@ -2474,6 +2508,18 @@ class C15(HistProp):
         ops = case.line.split("\t")
         last_b = None
         fails = []
+        sn = case.meta.get("setname")
+        if sn:
+            txt, hasz, ok, expn = sn
+            o = io[5] if len(io) > 5 else ""
+            toks = o[2:-1].split(" ") if o.startswith("W[") else []
+            mtok = [t for t in toks if t.startswith("M=")]
+            ntok = [t for t in toks if t.startswith("n=")]
+            if ok and (not mtok or mtok[0] != "M=OK"):
+                return "[facade] set_name(%r%s) through the table returned %s; the native conversion accepts this name (absolute names ignore the default zone)" % (
+                    bytes.fromhex(txt)[:40], ", zone example.com" if hasz else "", (mtok or ["?"])[0])
+            if ok and (len(ntok) < 2 or ntok[-1].lower() != "n=" + expn):
+                return "[facade] after set_name(%r%s) the record is named %s, expected %s" % (bytes.fromhex(txt)[:40], ", zone" if hasz else "", (ntok or ["?"])[-1][:80], expn[:80])
         for i, (op, o) in enumerate(zip(ops, io)):
             if op.startswith("F,"):
                 for bad in ("!wrote", "BADLEN", "NOT-TERMINATED", "=RC", "RC", "ABI-VERSION", "nodesc", "emptydesc", "unterminated", "exceeds-capacity", "BADOP"):
